@@ -329,6 +329,29 @@ impl C05 {
                     );
                     return;
                 }
+                // the packet-level accessors (ether_payload(), ip_payload(), vlan_ids()) answer the same
+                for (k, v) in &s.acc {
+                    if let Some((_, lv)) = l.acc.iter().find(|x| x.0 == *k) {
+                        if lv != v {
+                            rep.violation(
+                                &format!("strict_ok_lax_accessor|{}|{}", name, k),
+                                format!("{}: strict parsing succeeds; accessor fact {} is {} for the strict result and {} for the lax one", name, k, v, lv),
+                                &case.bytes,
+                            );
+                            return;
+                        }
+                    } else if *k == "ether.ety" || *k == "ip.num" {
+                        rep.violation(
+                            &format!("strict_ok_lax_accessor_missing|{}|{}", name, k),
+                            format!("{}: strict result answers {} = {}, the lax one does not answer", name, k, v),
+                            &case.bytes,
+                        );
+                        return;
+                    }
+                }
+                if !s.acc.is_empty() {
+                    rep.count("strict_ok_lax_accessors_same");
+                }
                 rep.count("strict_ok_lax_same");
             }
             Some(e) => {
